@@ -165,9 +165,10 @@ def r04_3(rep: Report) -> None:
                      f'{name} can return without calling _invalidate(): a cached encoding of the '
                      'box (or of a parent) is reused although the children changed', fn)
         # size propagation under `if child.size`
-        txt = norm(fn)
+        from ..core import subst_locals as _sl
         sign = '-child.size' if name == 'remove_child' else 'child.size'
-        if f'self.update_size({sign})' in txt:
+        if any(isinstance(c, ast.Call) and call_name(c) == 'self.update_size' and len(c.args) == 1
+               and norm(_sl(fn, c.args[0])) == norm(_sl(fn, ast.parse(sign, mode='eval').body)) for c in ast.walk(fn)):
             rep.ok(rid, construct, 'size delta')
         else:
             rep.fail(rid, construct, 'size delta',
@@ -193,17 +194,61 @@ def r04_3(rep: Report) -> None:
     us = need(find_func(cls, 'update_size'), 'Mp4Atom.update_size')
     from ..core import subst_locals
     dname = us.args.args[1].arg if len(us.args.args) > 1 else 'delta'
-    grows = any(isinstance(n, ast.AugAssign) and isinstance(n.op, ast.Add) and norm(n.target) == 'self.size'
+    # names that hold this box or one of its ancestors: self, anything assigned from such a name or its
+    # .parent, and loop variables over a list of tuples of such names (a recorded lineage)
+    chain: set[str] = {'self'}
+    for _ in range(4):
+        for n in ast.walk(us):
+            if isinstance(n, (ast.Assign, ast.AnnAssign)) and getattr(n, 'value', None) is not None:
+                tg = n.targets[0] if isinstance(n, ast.Assign) else n.target
+                v = n.value
+                base = v.value if isinstance(v, ast.Attribute) and v.attr == 'parent' else v
+                if isinstance(tg, ast.Name) and isinstance(base, ast.Name) and base.id in chain:
+                    chain.add(tg.id)
+            if isinstance(n, ast.For):
+                it = n.iter
+                while isinstance(it, ast.Call) and isinstance(it.func, ast.Name) and it.func.id in ('reversed', 'list', 'tuple') \
+                        and len(it.args) == 1:
+                    it = it.args[0]
+                if isinstance(it, ast.Name):
+                    rows = [c.args[0] for c in ast.walk(us) if isinstance(c, ast.Call) and call_name(c) == f'{it.id}.append'
+                            and len(c.args) == 1]
+                    if rows and all(isinstance(r_, ast.Tuple) and all(isinstance(e_, ast.Name) and e_.id in chain
+                                                                      for e_ in r_.elts) for r_ in rows):
+                        chain |= {x.id for x in ast.walk(n.target) if isinstance(x, ast.Name)}
+
+    def is_parent_expr(e: ast.AST) -> bool:
+        """an expression for the parent of a box of the chain"""
+        e = subst_locals(us, e)
+        return (isinstance(e, ast.Attribute) and e.attr == 'parent' and isinstance(e.value, ast.Name) and e.value.id in chain) \
+            or (isinstance(e, ast.Name) and e.id in chain and e.id != 'self')
+    grows = any(isinstance(n, ast.AugAssign) and isinstance(n.op, ast.Add) and isinstance(n.target, ast.Attribute)
+                and n.target.attr == 'size' and isinstance(n.target.value, ast.Name) and n.target.value.id in chain
                 and norm(n.value) == dname for n in ast.walk(us))
+    # every ancestor: recursion on the parent, or a loop that climbs (cursor = cursor.parent)
     recurses = any(isinstance(n, ast.Call) and isinstance(n.func, ast.Attribute) and n.func.attr == 'update_size'
                    and norm(subst_locals(us, n.func.value)) == 'self.parent'
                    and n.args and norm(n.args[0]) == dname for n in ast.walk(us))
+    climbs = False
+    for lp in ast.walk(us):
+        if isinstance(lp, (ast.While, ast.For)):
+            grows_here = [n for n in ast.walk(lp) if isinstance(n, ast.AugAssign) and isinstance(n.target, ast.Attribute)
+                          and n.target.attr == 'size' and isinstance(n.target.value, ast.Name) and norm(n.value) == dname]
+            for g_ in grows_here:
+                cur = g_.target.value.id
+                if cur in chain and any(isinstance(a_, ast.Assign) and isinstance(a_.targets[0], ast.Name)
+                                        and a_.targets[0].id == cur
+                                        and norm(subst_locals_in(lp, a_.value)) == f'{cur}.parent'
+                                        for a_ in ast.walk(lp)):
+                    climbs = True
+    recurses = recurses or climbs
     shifts = False
     for n in ast.walk(us):
         if isinstance(n, ast.For) and isinstance(n.target, ast.Name):
             it = subst_locals(us, n.iter, allow_calls=True)
             sl = it if isinstance(it, ast.Subscript) and isinstance(it.slice, ast.Slice) else None
-            if sl is not None and norm(sl.value) == 'self.parent._children' and sl.slice.lower is not None \
+            if sl is not None and isinstance(sl.value, ast.Attribute) and sl.value.attr == '_children' \
+                    and is_parent_expr(sl.value.value) and sl.slice.lower is not None \
                     and sl.slice.upper is None and norm(sl.slice.lower).endswith('+ 1') \
                     and any(isinstance(b, ast.AugAssign) and isinstance(b.op, ast.Add)
                             and norm(b.target) == f'{n.target.id}.position' and norm(b.value) == dname
@@ -243,6 +288,17 @@ def r04_3(rep: Report) -> None:
     else:
         rep.fail(rid, f'{MP4}::Mp4Atom.encode', 'two-pass order',
                  f'encode order is {seq}, expected {want} (sizes back-patched before fix-ups)', enc)
+
+
+def subst_locals_in(scope: ast.AST, e: ast.AST) -> ast.AST:
+    """`e` with a name written out when the enclosing loop assigns it exactly once from a plain attribute
+    chain (`parent = atom.parent` .. `atom = parent`)"""
+    if isinstance(e, ast.Name):
+        defs = [a_.value for a_ in ast.walk(scope) if isinstance(a_, ast.Assign) and isinstance(a_.targets[0], ast.Name)
+                and a_.targets[0].id == e.id]
+        if len(defs) == 1 and dotted(defs[0]) is not None:
+            return defs[0]
+    return e
 
 
 def r04_4(rep: Report) -> None:
